@@ -92,9 +92,20 @@ def instance_obligations(model, method, val, names, planted=False):
     def run():
         o1 = SV.solve_observe(model, val, method, mode="fixed")
         o2 = SV.solve_observe(model, val, method, mode="fixed", problem=o1.problem, build=o1.build)
-        return o1, o2
+        # (d) the same problem object re-oriented with the SAME objective object (min <-> max), solved, flipped back, solved
+        flip = None
+        if o1.exc is None and o1.lcalls:
+            pr = o1.problem
+            obj = pr.objective
+            mn, mx = pr.minimize, pr.maximize
+            (mx if model["sense"] == "min" else mn)(obj)
+            o3 = SV.solve_observe(model, val, method, mode="fixed", problem=pr, build=o1.build)
+            (mn if model["sense"] == "min" else mx)(obj)
+            o4 = SV.solve_observe(model, val, method, mode="fixed", problem=pr, build=o1.build)
+            flip = (o3, o4)
+        return o1, o2, flip
 
-    for dec, labels, pc, (o1, o2) in K.explore(run, max_paths=400):
+    for dec, labels, pc, (o1, o2, flip) in K.explore(run, max_paths=400):
         if o1.exc is not None:
             from optyx.core.errors import NonLinearError
             if isinstance(o1.exc, SymbolicConcretisation):
@@ -195,6 +206,29 @@ def instance_obligations(model, method, val, names, planted=False):
                 res.append(violation("C08|repeat-differs", f"{tag}: second solve passes a structurally different instance", dict(payload, kind="raises")))
             else:
                 res.append(K.decide(claims, pc, [], f"{tag}: repeated solve passes an equal instance", "C08|repeat-differs-values", dict(payload, ob="repeat"), allv, QT[_TIER]))
+        # (d) re-oriented solves: opposite orientation passes the NEGATED cost with the same rows; flipping back restores it
+        if flip is not None:
+            for nm, o, sg in (("opposite orientation", flip[0], -1.0), ("original orientation again", flip[1], 1.0)):
+                if o.exc is not None or not o.lcalls:
+                    res.append(violation("C08|flip-no-call", f"{tag}: solve after re-orienting ({nm}) did not call linprog ({o.exc!r})", dict(payload, kind="flip")))
+                    continue
+                cf = o.lcalls[0]
+                claims, same = [], True
+                if len(cf["c"]) != len(call["c"]):
+                    same = False
+                else:
+                    claims += [smt.eq(u, sg * v) for u, v in zip(cf["c"], call["c"])]
+                for key in ("A_ub", "b_ub", "A_eq", "b_eq"):
+                    a, b = call[key], cf[key]
+                    if (a is None) != (b is None) or (a is not None and np.shape(a) != np.shape(b)):
+                        same = False
+                    elif a is not None:
+                        claims += [smt.eq(u, v) for u, v in zip(np.asarray(a, dtype=object).reshape(-1), np.asarray(b, dtype=object).reshape(-1))]
+                if not same:
+                    res.append(violation("C08|flip-differs", f"{tag}: {nm}: structurally different instance", dict(payload, kind="flip")))
+                else:
+                    res.append(K.decide(claims, pc, [], f"{tag}: {nm} with the same objective object passes the {'negated' if sg < 0 else 'same'} cost and the same rows",
+                                        f"C08|flip-cost|{model['sense']}", dict(payload, kind="flip"), allv, QT[_TIER]))
     return res
 
 
@@ -326,6 +360,12 @@ def replay(payload):
                 try:
                     sol = p.solve(method=method)
                     sol2 = p.solve(method=method)
+                    if payload["kind"] == "flip":
+                        obj = p.objective
+                        (p.maximize if model["sense"] == "min" else p.minimize)(obj)
+                        p.solve(method=method)
+                        (p.minimize if model["sense"] == "min" else p.maximize)(obj)
+                        p.solve(method=method)
                 except Exception as e:  # noqa: BLE001
                     if payload["kind"] == "raises":
                         return True, f"solve raises {e!r}"
@@ -336,6 +376,13 @@ def replay(payload):
             continue
         call = captured[0]
         cols = [v.name for v in p.variables]
+        if payload["kind"] == "flip":
+            if len(captured) < 4:
+                return True, f"only {len(captured)} linprog calls for 4 solves"
+            for nm, cf, sg in (("opposite orientation", captured[2], -1.0), ("original orientation again", captured[3], 1.0)):
+                if cf["c"].shape != call["c"].shape or not np.allclose(cf["c"], sg * call["c"], rtol=0, atol=1e-12):
+                    return True, f"{nm} (same objective object): cost passed {cf['c'].tolist()}, expected {(sg * call['c']).tolist()}"
+            continue
         if payload["kind"] != "mapping" and len(captured) >= 2:
             a, b = captured[0], captured[1]
             for key in ("c", "A_ub", "b_ub", "A_eq", "b_eq"):
